@@ -47,31 +47,41 @@ def run(ctx, replay_case):
     res = ds.run_both(cases, "S")
     simpl, smodel = res["S"]
     ds.correspondence_violation(ctx, "DEC strict (streams)", cases, "S", simpl, smodel)
-    # per-message decodes; the response flag is what the stream derives: any(encrypt) over the command's sessions
+    # per-message decodes.  Well-formed streams: boundaries, command code and encrypt flag from the generator (the stated rule,
+    # independent of the decoder).  Corrupted streams: the corruption may hit a size field, the command code or a session
+    # attribute, so boundaries, code and flag are taken from the bytes themselves, message after message (SEQ).
     singles = []
     index = []
     for ci_, c in enumerate(cases):
+        if c.kind != "stream_ok":
+            continue
         off = 0
         for j, (t, cc, enc, b, v) in enumerate(c.meta["parts"]):
-            singles.append(ds.Case(t, cc, enc, c.data[off:] if c.kind == "stream_corrupt" else b, "single"))
+            singles.append(ds.Case(t, cc, enc, b, "single"))
             index.append((ci_, j, off))
             off += len(b)
     sres = core.run_impl([s.op("S") for s in singles])
     per_stream = collections.defaultdict(list)
     for (ci_, j, off), s, b in zip(index, singles, sres):
         per_stream[ci_].append((j, off, s, b))
+    corrupt = [ci_ for ci_, c in enumerate(cases) if c.kind != "stream_ok"]
+    seqres = dict(zip(corrupt, core.run_impl([("SEQ", cases[ci_].data) for ci_ in corrupt])))
     nbad = 0
     for ci_, c in enumerate(cases):
         sb = simpl[ci_]
         exp = []
         exp_r = "R done obj=None"
-        for j, off, s, b in per_stream[ci_]:
-            evs = [ds.strip_pulls(l) for l in ds.events_of(b)]
-            exp += evs
-            ok = b[-1].startswith("R done") if c.kind == "stream_ok" else (b[-1].startswith("R superfluous") or b[-1].startswith("R done"))
-            if not ok:
-                exp_r = b[-1]
-                break
+        if c.kind == "stream_ok":
+            for j, off, s, b in per_stream[ci_]:
+                evs = [ds.strip_pulls(l) for l in ds.events_of(b)]
+                exp += evs
+                if not b[-1].startswith("R done"):
+                    exp_r = b[-1]
+                    break
+        else:
+            sq = seqres[ci_]
+            exp = sq[:-1]
+            exp_r = "R done obj=None" if sq[-1] == "R end" else sq[-1]
         got = [ds.strip_pulls(l) for l in ds.events_of(sb)]
         # errors carry the command code decoded so far in the *stream*; compare class and details, not cc of depleted
         def norm(r):
